@@ -64,6 +64,14 @@ func (ls *listenServer) OnCReact(r *core.Msg, c core.CConn) (out []byte, action 
 
 	core.GlobalStats.ReqCmdIncr(r.Type)
 
+	// Pick the redis connection of every fragment before any fragment is queued: if one of them cannot be
+	// routed the request is answered with an error and recycled, so none of its fragments may be in flight.
+	type target struct {
+		frag  *core.Frag
+		sConn core.SConn
+	}
+	targets := make([]target, 0, len(r.Body))
+
 	for slot, frag := range r.Body {
 		if r.Type == codec.ReqAuth {
 			if len(ls.Password) < 1 {
@@ -99,13 +107,16 @@ func (ls *listenServer) OnCReact(r *core.Msg, c core.CConn) (out []byte, action 
 				return codec.ErrUnKnown.Bytes(), core.None
 			}
 		}
-		frag.Owner = c
-
 		logging.Debugfunc(func() string {
 			return fmt.Sprintf("[%dm|%df][%dc|%ds] key '%s' maps to server '%s' in slot %d", r.Id, frag.Id, c.Fd(), sConn.Fd(), frag.Key, addr, slot)
 		})
 
-		sConn.EnqueueOutFrag(frag)
+		targets = append(targets, target{frag, sConn})
+	}
+
+	for _, t := range targets {
+		t.frag.Owner = c
+		t.sConn.EnqueueOutFrag(t.frag)
 	}
 
 	c.EnqueueInMsg(r)
